@@ -514,6 +514,7 @@ def types_runner(lines):
 # ------------------------------------------------------------------------------------------------
 
 FILL_TYS = {
+    "unit": ("()", "()"),
     "u8": ("u8", "0u8"), "u64": ("u64", "0u64"), "b3": ("[u8; 3]", "[0u8; 3]"),
     "slot": ("Slot", "Slot { id: 7, wiped: false, secret: 0x1234 }"),
     "nest": ("GenericArray<Slot, U3>", None),
@@ -529,6 +530,12 @@ def filldefault_item(line):
     kv = kvs(line)
     n, ty = int(kv["n"]), kv.get("kind", "u8")
     T, d = FILL_TYS[ty]
+    if n >= 65536:
+        # very long arrays: statics (a const would be copied to the stack at each use); "usable in const items for
+        # every length" includes the one real use of const_default, a big static buffer
+        return (FILL_PRELUDE + "static A: GenericArray<%s, U%d> = GenericArray::const_default();\n"
+                "static B: GenericArray<%s, U%d> = <GenericArray<%s, U%d> as ConstDefault>::DEFAULT;\n"
+                "pub fn check() -> bool { A.len() == %d && A.iter().all(|x| *x == %s) && A == B }") % (T, n, T, n, T, n, n, d)
     cmp_ = ("A.iter().all(|x| *x == %s)" % d) if d else "A.iter().all(|r| r.iter().all(|x| *x == Slot { id: 7, wiped: false, secret: 0x1234 }))"
     return (FILL_PRELUDE + "const A: GenericArray<%s, U%d> = GenericArray::const_default();\n"
             "const B: GenericArray<%s, U%d> = <GenericArray<%s, U%d> as ConstDefault>::DEFAULT;\n"
